@@ -5,7 +5,7 @@
    configurations (KF, UKF, bootstrap, Gaussian-particle), for arbitrary step
    bodies pstep / cstep and arbitrary beliefs. *)
 Require Import List Bool.
-Require Import BFL.Ops BFL.C02_Model BFL.C13_Model BFL.C13_Proofs BFL.C13_Link.
+Require Import BFL.Ops BFL.C02_Model BFL.C13_Model BFL.C13_Proofs BFL.C13_Link BFL.C13_Life BFL.C13_LifeProofs.
 Import ListNotations.
 Local Open Scope bool_scope.
 
@@ -225,6 +225,86 @@ Theorem C13_modes_are_linear_propagate (O : MatOps) (n k : nat) (F : M O n n) (e
   lin_propagate F exo ss se cur old = interp_mode O F exo (prop_mode_of (flags_of exo p i ss se c)) cur old.
 Proof. exact (lin_propagate_is_mode O F exo p i ss se c cur old). Qed.
 
+(* ---- object lifetimes: however the step objects were obtained (C13_Life) ----
+   LMove replaces the prediction and correction step objects by the objects moved from them (move construction or
+   move assignment).  The move as the code performs it (base-class subobject taken from the source, models moved as
+   pointers) keeps every flag: *)
+Theorem C13_move_keeps_every_flag (st : mstate) : lnext LMove st = st /\ move_flags (ms_flags st) = ms_flags st.
+Proof. exact (conj (lnext_move st) (move_flags_id (ms_flags st))). Qed.
+
+(* ... and only a move that takes both base-class subobjects from the source does *)
+Theorem C13_move_identity_iff (M : movers) : (forall f, move_flags_g M f = f) <-> M = movers_now.
+Proof. exact (move_identity_iff M). Qed.
+
+(* any number of moves at any positions of any word of operations, from any state: every observation that is not
+   a move (answers of the skip commands and the skipping state reported after them, outcome of every predict / correct,
+   freezes) and the final state are those of the word without the moves *)
+Theorem C13_moves_unobservable (k : kind) (ops : list lop) (st : mstate) :
+  kept (run_lops k ops st) = run_ops k (erase ops) st /\ lfinal ops st = final_m (erase ops) st.
+Proof. exact (conj (kept_run_lops k ops st) (lfinal_erase ops st)). Qed.
+
+(* one more move inserted at any position of any word (which may contain moves already) *)
+Theorem C13_move_at_any_position (k : kind) (n : nat) (ops : list lop) (st : mstate) :
+  kept (run_lops k (insert_move n ops) st) = kept (run_lops k ops st) /\
+  lfinal (insert_move n ops) st = lfinal ops st.
+Proof. exact (insert_move_unobservable k n ops st). Qed.
+
+(* the skipping state reported by the objects obtained by a move matches the commands given so far *)
+Theorem C13_moved_objects_report_commands (k : kind) (have : bool) (a b : list lop) :
+  exists f, run_lops k (a ++ LMove :: b) (m_init have) =
+            run_lops k a (m_init have) ++ LMoved f :: run_lops k b (lfinal a (m_init have)) /\
+  let cs := skips_of (erase a) in
+  f_state f = last_status state_names false cs /\
+  f_exo f = (if have then Some (last_status exo_names false cs) else None) /\
+  f_corr f = last_status corr_names false cs /\
+  f_pred f = last_status state_names false cs && (if have then last_status exo_names false cs else true) /\
+  f_inner f = false.
+Proof. exact (moved_report_by_rule k have a b). Qed.
+
+(* the identity clause on objects obtained through moves *)
+Theorem C13_identity_with_moves (B : Type) (pstep : kind -> prop_mode -> B -> B -> B) (cstep : kind -> B -> B -> B)
+  (same_shape : B -> B -> bool) (gpf_sliced : B -> B -> B) (have : bool) (ops : list lop) (k : kind) (x old : B) :
+  let cs := skips_of (erase ops) in
+  (last_status state_names false cs && (if have then last_status exo_names false cs else true) = true ->
+   predict B pstep same_shape gpf_sliced k (ms_flags (lfinal ops (m_init have))) x old = x) /\
+  (last_status corr_names false cs = true ->
+   correct B cstep k (ms_flags (lfinal ops (m_init have))) x old = x).
+Proof.
+exact (conj (predict_identity_with_moves B pstep same_shape gpf_sliced have ops k x old)
+            (correct_identity_with_moves B cstep have ops k x old)).
+Qed.
+
+(* restoring: the step functions of the moved objects are those of objects never moved (hence, with
+   C13_reversible / C13_prediction_restored / C13_correction_restored, of a never-skipped filter once switched off) *)
+Theorem C13_steps_with_moves (B : Type) (pstep : kind -> prop_mode -> B -> B -> B) (cstep : kind -> B -> B -> B)
+  (same_shape : B -> B -> bool) (gpf_sliced : B -> B -> B) (ops : list lop) (st : mstate) (k : kind) :
+  (forall prev old, predict B pstep same_shape gpf_sliced k (ms_flags (lfinal ops st)) prev old =
+                    predict B pstep same_shape gpf_sliced k (ms_flags (final_m (erase ops) st)) prev old) /\
+  (forall x old, correct B cstep k (ms_flags (lfinal ops st)) x old =
+                 correct B cstep k (ms_flags (final_m (erase ops) st)) x old).
+Proof. exact (steps_with_moves B pstep cstep same_shape gpf_sliced ops st k). Qed.
+
+(* the correction move constructors as they were before "fix: KF, UKF and SUKF correction move constructors carry the
+   skip state of the base class" (instance movers_before of the same definitions): correction on; move; correct runs the
+   correction *)
+Theorem C13_move_before_fix_refuted :
+  exists (ops : list lop) (k : kind) (have : bool),
+    last_status corr_names false (skips_of (erase ops)) = true /\
+    run_lops_g movers_before k (ops ++ [LOp (OpCorrect false)]) (m_init have) =
+      [LObs (ObsSkip (Ok true) (mkFlags false false false None true)); LMoved (init false); LObs (ObsStep (OCorrected KF 0))] /\
+    run_lops k (ops ++ [LOp (OpCorrect false)]) (m_init have) =
+      [LObs (ObsSkip (Ok true) (mkFlags false false false None true)); LMoved (mkFlags false false false None true); LObs (ObsStep OInput)].
+Proof. exact old_move_refuted. Qed.
+
+Example C13_word_with_moves :
+  run_lops GPF [LMove; LOp (OpSkip NAll true); LOp OpFreeze; LMove; LOp (OpPredict true); LOp (OpCorrect false);
+                LOp (OpSkip NCorrection false); LMove; LOp (OpCorrect false)] (m_init true)
+  = [LMoved (init true); LObs (ObsSkip (Ok true) (mkFlags true false true (Some true) true)); LObs (ObsFreeze 1);
+     LMoved (mkFlags true false true (Some true) true); LObs (ObsStep OInput); LObs (ObsStep OInput);
+     LObs (ObsSkip (Ok true) (mkFlags true false true (Some true) false)); LMoved (mkFlags true false true (Some true) false);
+     LObs (ObsStep (OCorrected GPF 1))].
+Proof. reflexivity. Qed.
+
 (* non-vacuity: concrete words, by computation on the very functions that are extracted *)
 Example C13_word_without_exo :
   run [(NPrediction, true); (NExogenous, true); (NOther, true); (NState, false); (NAll, false)] (init false)
@@ -285,3 +365,11 @@ Print Assumptions C13_freeze_not_gated.
 Print Assumptions C13_measurement_cursor.
 Print Assumptions C13_reversible_with_measurements.
 Print Assumptions C13_correction_restored_with_measurements.
+Print Assumptions C13_move_keeps_every_flag.
+Print Assumptions C13_move_identity_iff.
+Print Assumptions C13_moves_unobservable.
+Print Assumptions C13_move_at_any_position.
+Print Assumptions C13_moved_objects_report_commands.
+Print Assumptions C13_identity_with_moves.
+Print Assumptions C13_steps_with_moves.
+Print Assumptions C13_move_before_fix_refuted.
